@@ -1,4 +1,5 @@
 (* Props/C04.v — property C04: every supplied scenario runs, nothing else runs, the run terminates. *)
+From CV Require Proofs.SchedP10.
 From CV Require Import Model.Base Model.Events Model.Sched Proofs.BaseP Proofs.SchedP Proofs.SchedP2 Proofs.SchedP3 Proofs.SchedP4 Proofs.SchedP8.
 
 (* nothing runs that was not dispatched: a scenario event always belongs to an entry of `running` *)
@@ -34,3 +35,42 @@ Theorem C04_attempts_bounded_by_input :
   forall c ls s tr, exec c ls = Some (s, tr) -> starts (fun _ => true) tr <= budget (fun _ => true) ls.
 Proof. exact attempts_total_bounded. Qed.
 Print Assumptions C04_attempts_bounded_by_input.
+
+(* NO DEADLOCK: in every reachable state that is not Done the runner itself (not the parser, not the clock) can take
+   a step: a loop turn, the start of a dispatched attempt or the end of an opened one. No hypothesis beyond
+   reachability. *)
+Theorem C04_no_deadlock :
+  forall c ls s tr, exec c ls = Some (s, tr) -> pc s <> Done ->
+    exists l, SchedP10.runner_label l = true /\ step c s l <> None.
+Proof. exact SchedP10.no_deadlock. Qed.
+Print Assumptions C04_no_deadlock.
+
+(* TERMINATION, "instead of spinning forever": once the parser has ended the scheduling loop takes a BOUNDED number of
+   turns, whatever the attempts do and however the clock ticks — at most 3 per attempt the input allows (one that
+   dispatches it, one that consumes its completion, one idle turn that sleeps until its retry delay has elapsed)
+   plus the limit plus 3. An idle turn jumps the clock past the smallest deadline, so the next turn dispatches. *)
+Theorem C04_loop_turns_bounded_after_parsing :
+  forall c k ls0 s0 tr0 ls s tr,
+    cf_concurrency c = Some (S k) -> exec c ls0 = Some (s0, tr0) -> pdone s0 = true ->
+    exec_from c s0 ls = Some (s, tr) ->
+    N.of_nat (SchedP10.tops ls) <= 3 * budget (fun _ => true) ls0 + N.of_nat (S k) + 3.
+Proof. exact SchedP10.turns_bounded_input. Qed.
+Print Assumptions C04_loop_turns_bounded_after_parsing.
+
+Theorem C04_loop_turns_bounded_from_any_state :
+  forall c ls0 s0 tr0 ls s tr,
+    exec c ls0 = Some (s0, tr0) -> pdone s0 = true -> cf_concurrency c <> Some 0%nat ->
+    exec_from c s0 ls = Some (s, tr) ->
+    N.of_nat (SchedP10.tops ls) <= 3 * pot (fun _ => true) s0 + N.of_nat (length (running s0)) + 3.
+Proof. exact SchedP10.turns_bounded. Qed.
+
+Example C04_turns_nonvacuous :
+  match exec SchedP10.ex_c SchedP10.ex_ls0 with
+  | Some (s0, _) =>
+    match exec_from SchedP10.ex_c s0 SchedP10.ex_ls with
+    | Some (s, _) => (pdone s0, match pc s with Done => true | _ => false end, SchedP10.tops SchedP10.ex_ls)
+    | None => (false, false, 0%nat)
+    end
+  | None => (false, false, 0%nat)
+  end = (true, true, 5%nat).
+Proof. vm_compute. reflexivity. Qed.
